@@ -237,6 +237,13 @@ impl SVCB {
             svc_params.push(into_svc_param(key, value)?);
         }
 
+        // RFC 9460 2.1: SvcParams "MAY appear in any order, but keys MUST NOT be repeated"
+        let mut keys = svc_params.iter().map(|(key, _)| *key).collect::<Vec<_>>();
+        keys.sort();
+        if keys.windows(2).any(|pair| pair[0] == pair[1]) {
+            return Err(ParseError::Message("SvcParamKeys must not be repeated"));
+        }
+
         Ok(SVCB::new(svc_priority, target_name, svc_params))
     }
 }
